@@ -115,6 +115,14 @@ static std::string exec(const std::vector<std::string> &w) {
     for (const Shape &r : rets) if (!(r == rets[0])) return "ok inconsistent";
     return show(rets[0]);
   }
+  if (op == "sce" && S == 2 && N == 1) {
+    operators::SoftmaxCrossEntropy o(ns[0]);
+    std::vector<const Shape *> args{&ss[0], &ss[1]};
+    Shape r;
+    std::vector<Shape *> rp{&r};
+    o.forward_shape(args, rp);
+    return show(r);
+  }
   throw BadOp();
 }
 
